@@ -84,7 +84,10 @@ def _verify_c(job):
         # engine cross-check / bounded stand-in: the proved contract evaluated on the REAL function for small
         # solver-drawn inputs (one ASan harness per function); a clause false there is a violation with its input
         ncct = meta.get("cct", 10 if tier == "quick" else 150)
-        if ncct and not confirmed and all(o.status == "discharged" for o in obs):
+        all_ok = all(o.status == "discharged" for o in obs)
+        if ncct and not all_ok and not any(o.status == "failed" for o in obs):
+            ncct = max(ncct, 300)      # obligations left open by the solvers: look harder for a concrete counterexample
+        if ncct and not confirmed and (all_ok or not any(o.status == "failed" for o in obs)):
             try:
                 from vf import cct
                 r = cct.run(ex, n_inputs=ncct, seed=int(os.environ.get("VERIF_SEED", "0")))
